@@ -1,6 +1,7 @@
 """C06 — no child lost, duplicated or orphaned: after every operation the schema-ordered view is a permutation of the
 insertion-ordered view, both equal the list semantics of the successful operations, parents are right."""
 import json
+import os, json, random
 from . import common as C
 from . import matcher, hist
 
@@ -57,7 +58,24 @@ def sweep_failures(m, cases, io, mo):
 def run(rep):
     res = C.proof_obligations(rep, 'Properties/C06.v')
     quick = rep.tier == 'quick'
-    corp = matcher.Corpus(rep, per_type=40 if quick else 300, maxlen=14 if quick else 24)
+    extra = []
+    gp = os.path.join(C.BUILD, 'gen.json')
+    if os.path.exists(gp):
+        # orders that make the matcher re-arrange the children already attached (c12.perm_cases), then ONE of the children - re-homed or left where
+        # it was - removed or replaced by itself, then the views judged: what the re-arrangement leaves behind shows only when a child is touched again
+        from . import c12
+        g0 = json.load(open(gp))
+        rng = random.Random(rep.seed * 41 + 6)
+        pcs = [c for c in c12.perm_cases(g0, rep.seed, 4 if quick else 5, 4 if quick else 20) if c['perm'] != c['arr']]
+        rng.shuffle(pcs)
+        for c in pcs[:700 if quick else 8000]:
+            adds = c['ops'][:-1]
+            i = rng.randrange(len(adds))
+            extra.append({'type': c['type'], 'ops': adds + [['r', i], ['q', 0], ['f', 0]]})
+            j = rng.randrange(len(adds))
+            extra.append({'type': c['type'], 'ops': adds + [['s', j], ['r', j], ['f', 0]]})
+    corp = matcher.Corpus(rep, per_type=40 if quick else 300, maxlen=14 if quick else 24, extra_cases=extra)
+    rep.coverage['rearrangement_then_touch_histories'] = len(extra)
     try:
         m = corp.m
         bad = judge(corp.cases, corp.impl)
